@@ -1053,9 +1053,52 @@ def extract_session_order3(out: Out, srcs):
                "(the PUBCOMP does not depend on whether the id was known)")
 
 
+def extract_session_order4(out: Out, srcs):
+    c = srcs.get("client.py")
+    if c is None:
+        return
+    F = "SessionOrder"
+
+    def publish_dispatch_shape():
+        """the QoS dispatch at the end of _handle_publish: QoS 0 delivers; QoS 1 delivers FIRST and then acknowledges unless manual_ack;
+        QoS 2 answers PUBREC and stores the message WITHOUT delivering it; anything else is a protocol error"""
+        f = c.func("Client._handle_publish")
+        chain = [st for st in f.body if isinstance(st, ast.If) and unparse(st.test) == "message.qos == 0"]
+        if len(chain) != 1:
+            raise Missing("_handle_publish: `if message.qos == 0:` chain")
+        q0 = chain[0]
+        if not (len(q0.orelse) == 1 and isinstance(q0.orelse[0], ast.If) and unparse(q0.orelse[0].test) == "message.qos == 1"):
+            raise Missing("_handle_publish: elif message.qos == 1")
+        q1 = q0.orelse[0]
+        if not (len(q1.orelse) == 1 and isinstance(q1.orelse[0], ast.If) and unparse(q1.orelse[0].test) == "message.qos == 2"):
+            raise Missing("_handle_publish: elif message.qos == 2")
+        q2 = q1.orelse[0]
+        src0 = [unparse(x) for x in q0.body]
+        src1 = [unparse(x) for x in q1.body]
+        if src0 != ["self._handle_on_message(message)", "return MQTTErrorCode.MQTT_ERR_SUCCESS"]:
+            raise Missing(f"_handle_publish QoS 0 branch: {src0}")
+        if not (len(q1.body) == 2 and src1[0] == "self._handle_on_message(message)" and isinstance(q1.body[1], ast.If)
+                and unparse(q1.body[1].test) == "self._manual_ack" and [unparse(x) for x in q1.body[1].body] == ["return MQTTErrorCode.MQTT_ERR_SUCCESS"]
+                and [unparse(x) for x in q1.body[1].orelse] == ["return self._send_puback(message.mid)"]):
+            raise Missing(f"_handle_publish QoS 1 branch: {src1}")
+        calls2 = [unparse(n.func) for st in q2.body for n in walk(st, ast.Call)]
+        if "self._handle_on_message" in calls2 or calls2.count("self._send_pubrec") != 1:
+            raise Missing(f"_handle_publish QoS 2 branch calls {calls2}")
+        stores = [st for st in walk(q2, ast.Assign) if unparse(st.targets[0]) == "self._in_messages[message.mid]"]
+        if len(stores) != 1:
+            raise Missing("_handle_publish QoS 2 branch: self._in_messages[message.mid] = message")
+        if [unparse(x) for x in q2.orelse] != ["return MQTTErrorCode.MQTT_ERR_PROTOCOL"]:
+            raise Missing("_handle_publish: else branch")
+        return True
+    out.anchor(F, "handlePublishShapeOk", "Bool", publish_dispatch_shape,
+               "client.py Client._handle_publish: QoS 0 delivers; QoS 1 delivers first, then PUBACK unless manual_ack; QoS 2 answers PUBREC and "
+               "stores the message without delivering it")
+
+
 EXTRACTORS.append(extract_session_order)
 EXTRACTORS.append(extract_session_order2)
 EXTRACTORS.append(extract_session_order3)
+EXTRACTORS.append(extract_session_order4)
 
 
 def run(write=True):
